@@ -128,9 +128,12 @@ def _engine(workdir):
 
     path = os.path.join(workdir, "stub_engine.json")
     if not os.path.exists(path):
-        with open(path, "w") as fh:
+        # atomically: forked workers running side by side must never read a half-written file
+        tmp = "%s.%d.tmp" % (path, os.getpid())
+        with open(tmp, "w") as fh:
             json.dump({"line_px_height": HEIGHT, "line_vertical_scale": 1, "checkpoint": "none", "characters": list(LETTERS[:4]),
                        "net_name": "stub", "max_line_width": MAX_LINE_WIDTH}, fh)
+        os.replace(tmp, path)
     return StubEngine(path)
 
 
